@@ -47,6 +47,7 @@ type gSlice struct {
 type gMap struct {
 	keys []string
 	vals map[string]gv
+	zero gv // the zero value of the element type, when it is known (m[absent])
 }
 type gTemplate struct {
 	t *template.Template
@@ -124,26 +125,28 @@ type genFinding struct {
 }
 
 type genEval struct {
-	fset     *token.FileSet
-	files    []*ast.File
-	imports  map[string]string
-	funcs    map[string]*ast.FuncDecl
-	structs  map[string]*ast.StructType
-	methods  bool
-	globals  *gScope
-	genDir   string
-	cwd      string
-	rel      func(string) string
-	read     func(string) ([]byte, error)
-	outFiles map[string]*gFile
-	bufios   []*gBufio
-	errs     []*gErr
-	findings []genFinding
-	fuel     int
-	execs    int
-	rtypes   map[string]reflect.Type
-	frames   []*gFrame
-	mapDepth int
+	fset    *token.FileSet
+	files   []*ast.File
+	imports map[string]string
+	funcs   map[string]*ast.FuncDecl
+	structs map[string]*ast.StructType
+	methods bool
+	// methods the generator declares on its own struct types: type name → method name → declaration
+	userMethods map[string]map[string]*ast.FuncDecl
+	globals     *gScope
+	genDir      string
+	cwd         string
+	rel         func(string) string
+	read        func(string) ([]byte, error)
+	outFiles    map[string]*gFile
+	bufios      []*gBufio
+	errs        []*gErr
+	findings    []genFinding
+	fuel        int
+	execs       int
+	rtypes      map[string]reflect.Type
+	frames      []*gFrame
+	mapDepth    int
 }
 
 type gFrame struct {
@@ -234,6 +237,21 @@ func (e *genEval) run() (st *gStop) {
 			case *ast.FuncDecl:
 				if x.Recv != nil {
 					e.methods = true
+					if len(x.Recv.List) == 1 {
+						rt := x.Recv.List[0].Type
+						if st, ok := rt.(*ast.StarExpr); ok {
+							rt = st.X
+						}
+						if id, ok := rt.(*ast.Ident); ok {
+							if e.userMethods == nil {
+								e.userMethods = map[string]map[string]*ast.FuncDecl{}
+							}
+							if e.userMethods[id.Name] == nil {
+								e.userMethods[id.Name] = map[string]*ast.FuncDecl{}
+							}
+							e.userMethods[id.Name][x.Name.Name] = x
+						}
+					}
 					continue
 				}
 				e.funcs[x.Name.Name] = x
@@ -357,7 +375,7 @@ func (e *genEval) zero(t ast.Expr) gv {
 			return &gSlice{}
 		}
 	case *ast.MapType:
-		return &gMap{vals: map[string]gv{}}
+		return &gMap{vals: map[string]gv{}, zero: e.tryZero(x.Value)}
 	case *ast.StarExpr, *ast.FuncType, *ast.InterfaceType:
 		return gNil{}
 	case *ast.SelectorExpr:
@@ -372,6 +390,40 @@ func (e *genEval) zero(t ast.Expr) gv {
 	}
 	e.stop(t.Pos(), "zero value of type %s is outside the evaluated subset", genText(t))
 	return nil
+}
+
+// tryZero: the zero value of a type, nil when it is outside the evaluated subset.
+func (e *genEval) tryZero(t ast.Expr) (v gv) {
+	defer func() {
+		if r := recover(); r != nil {
+			if _, ok := r.(gStop); ok {
+				v = nil
+				return
+			}
+			panic(r)
+		}
+	}()
+	return e.zero(t)
+}
+
+// callUserMethod: a method the generator declares on one of its struct types, called on a value
+// of that type. A pointer receiver sees the value itself, a value receiver a copy.
+func (e *genEval) callUserMethod(s *gStruct, name string, args []gv, at token.Pos) ([]gv, bool) {
+	fd := e.userMethods[s.typ][name]
+	if fd == nil || fd.Body == nil {
+		return nil, false
+	}
+	env := newScope(e.globals)
+	if len(fd.Recv.List[0].Names) == 1 && fd.Recv.List[0].Names[0].Name != "_" {
+		var rv gv = s
+		if _, isPtr := fd.Recv.List[0].Type.(*ast.StarExpr); isPtr {
+			rv = &gPtr{c: &gCell{s}}
+		} else {
+			rv = e.copyVal(s)
+		}
+		env.vars[fd.Recv.List[0].Names[0].Name] = &gCell{rv}
+	}
+	return e.callFunc(&gFunc{decl: fd, env: env}, args, at), true
 }
 
 func genText(x ast.Node) string {
@@ -596,7 +648,13 @@ func (e *genEval) toGo(v gv, at token.Pos) any {
 		if rt := e.rtype(x.typ); rt != nil {
 			val := reflect.New(rt).Elem()
 			for i := 0; i < rt.NumField(); i++ {
-				f := e.toGo(x.fields[rt.Field(i).Name], at)
+				fval, isField := x.fields[rt.Field(i).Name]
+				if !isField && e.userMethods[x.typ][rt.Field(i).Name] != nil {
+					if out, ok := e.callUserMethod(x, rt.Field(i).Name, nil, at); ok && len(out) == 1 {
+						fval = out[0]
+					}
+				}
+				f := e.toGo(fval, at)
 				if f == nil {
 					continue
 				}
@@ -645,6 +703,19 @@ func (e *genEval) rtype(name string) reflect.Type {
 			}
 			fields = append(fields, reflect.StructField{Name: nm.Name, Type: ft})
 		}
+	}
+	// niladic methods the template may call (.Name, .LeafName) stand in the data as fields of the
+	// same name holding what the method returns for the row
+	for _, mn := range sortedKeys(e.userMethods[name]) {
+		fd := e.userMethods[name][mn]
+		if !ast.IsExported(mn) || fd.Type.Params.NumFields() != 0 || fd.Type.Results.NumFields() != 1 {
+			continue
+		}
+		ft := e.rtypeOf(fd.Type.Results.List[0].Type)
+		if ft == nil {
+			continue
+		}
+		fields = append(fields, reflect.StructField{Name: mn, Type: ft})
 	}
 	t := reflect.StructOf(fields)
 	e.rtypes[name] = t
@@ -1378,6 +1449,11 @@ func (e *genEval) callExpr(sc *gScope, call *ast.CallExpr) []gv {
 			if fv, ok := s.fields[f.Sel.Name].(*gFunc); ok {
 				return e.callFunc(fv, evalArgs(), at)
 			}
+			if e.userMethods[s.typ][f.Sel.Name] != nil {
+				if out, ok := e.callUserMethod(s, f.Sel.Name, evalArgs(), at); ok {
+					return out
+				}
+			}
 		}
 		return e.callMethod(sc, recv, f.Sel.Name, call)
 	case *ast.FuncLit:
@@ -1481,6 +1557,9 @@ func (e *genEval) eval(sc *gScope, x ast.Expr) gv {
 			}
 			if v, ok := b.vals[k]; ok {
 				return v
+			}
+			if b.zero != nil {
+				return e.copyVal(b.zero)
 			}
 			e.stop(x.Pos(), "map has no key %q", k)
 		case string:
@@ -2032,7 +2111,18 @@ func (e *genEval) exec(sc *gScope, st ast.Stmt) gCtl {
 		}
 	case *ast.AssignStmt:
 		var vals []gv
-		if len(s.Rhs) == 1 && len(s.Lhs) > 1 {
+		if ix, isIdx := ast.Unparen(s.Rhs[0]).(*ast.IndexExpr); isIdx && len(s.Rhs) == 1 && len(s.Lhs) == 2 {
+			// v, ok := m[k] with an absent key
+			if m, isMap := e.eval(sc, ix.X).(*gMap); isMap {
+				if k, isStr := e.eval(sc, ix.Index).(string); isStr {
+					if _, present := m.vals[k]; !present && m.zero != nil {
+						vals = gTuple{e.copyVal(m.zero), false}
+					}
+				}
+			}
+		}
+		if vals != nil {
+		} else if len(s.Rhs) == 1 && len(s.Lhs) > 1 {
 			v := e.eval(sc, s.Rhs[0])
 			tu, ok := v.(gTuple)
 			if !ok || len(tu) != len(s.Lhs) {
